@@ -69,9 +69,9 @@ type Run struct {
 }
 
 func (r *Run) buildAndSolve(fns []*ssa.Function) {
-	quickMs, raceS := 10000, 20
+	quickMs, raceS := 30000, 60
 	if r.tier == "thorough" {
-		quickMs, raceS = 30000, 90
+		quickMs, raceS = 60000, 120
 	}
 	var mu sync.Mutex
 	var wg sync.WaitGroup
